@@ -34,8 +34,24 @@ def main():
             shutil.copytree('/repo', root, dirs_exist_ok=True, ignore=shutil.ignore_patterns('.git', '__pycache__', '*.egg-info'))
             p = subprocess.run(['patch', '-p1', '-s', '-i', os.path.join(d, 'patch.diff')], cwd=root, capture_output=True, text=True)
             if p.returncode != 0:
-                rec = {'status': 'patch no longer applies', 'detail': (p.stdout + p.stderr)[-200:]}
-            else:
+                # the tree has moved on under the patch (a later fix: commit touched the same lines): merge it three-way
+                # in a scratch git worktree (the patch names its base blobs) and take the merged files
+                wt = tempfile.mkdtemp(prefix='seedre-wt-')
+                os.rmdir(wt)
+                subprocess.run(['git', '-C', '/repo', 'worktree', 'add', '-q', '--detach', wt, 'HEAD'], capture_output=True)
+                q = subprocess.run(['git', '-C', wt, 'apply', '--3way', os.path.join(d, 'patch.diff')], capture_output=True, text=True)
+                merged = q.returncode == 0 and not subprocess.run(['git', '-C', wt, 'diff', '--name-only', '--diff-filter=U'],
+                                                                  capture_output=True, text=True).stdout.strip()
+                if merged:
+                    shutil.rmtree(os.path.join(root, 'aiuti'))
+                    shutil.copytree(os.path.join(wt, 'aiuti'), os.path.join(root, 'aiuti'), ignore=shutil.ignore_patterns('__pycache__'))
+                subprocess.run(['git', '-C', '/repo', 'worktree', 'remove', '--force', wt], capture_output=True)
+                subprocess.run(['git', '-C', '/repo', 'worktree', 'prune'], capture_output=True)
+                if not merged:
+                    rec = {'status': 'patch no longer applies', 'detail': (p.stdout + p.stderr + q.stderr)[-300:]}
+                else:
+                    rec['merged_three_way'] = True
+            if 'status' not in rec:
                 rec['checks'] = {}
                 for pid in props:
                     env = dict(os.environ, VERIF_REPO=root, VERIF_SEED=a.seed, VERIF_STOP_ON_VIOLATION='1',
